@@ -93,8 +93,9 @@ type watchEntry struct {
 }
 
 const (
-	hangWall = 60 * time.Second // a case normally costs microseconds
-	hangCPU  = 30 * time.Second // CPU burnt by a fresh child on that one case
+	hangWall = 60 * time.Second  // a case normally costs microseconds
+	hangCPU  = 120 * time.Second // CPU burnt by a fresh child on that one case (the heaviest legitimate case costs about 35 s)
+	hangGive = 30 * time.Minute  // after this long without that much CPU the machine cannot decide: inconclusive
 )
 
 // Watch registers the case about to run; call the returned func when done.
@@ -148,41 +149,73 @@ func (r *Run) judgeHang(e *watchEntry) {
 		os.Exit(2)
 	}
 	go func() { done <- cmd.Wait() }()
-	select {
-	case <-done:
-		// the child finished on its own: the parent was starved, not hung. Give the case more time; only a case
-		// that is cleared like this again and again makes the run inconclusive.
-		os.Remove(cand)
-		r.wmu.Lock()
-		e.cleared++
-		e.start = time.Now()
-		n := e.cleared
-		r.wmu.Unlock()
-		if n < 5 {
-			fmt.Printf("NOTE: the slow case finished when run alone (machine overloaded?); it gets another %v\n", hangWall)
-			return
+	// The child is judged by the CPU time it burns, read while it runs, never by the wall clock: on an overloaded
+	// machine a heavy but finite case may need many minutes of wall time, and it must then be let finish.
+	begin := time.Now()
+	tick := time.NewTicker(time.Second)
+	defer tick.Stop()
+	for {
+		select {
+		case <-done:
+			// the child finished on its own: the parent was starved, not hung. Give the case more time; only a case
+			// that is cleared like this again and again makes the run inconclusive.
+			os.Remove(cand)
+			r.wmu.Lock()
+			e.cleared++
+			e.start = time.Now()
+			n := e.cleared
+			r.wmu.Unlock()
+			if n < 5 {
+				fmt.Printf("NOTE: the slow case finished when run alone (machine overloaded?); it gets another %v\n", hangWall)
+				return
+			}
+			fmt.Printf("INCONCLUSIVE: a case is still running after %d x %v although it finishes when run alone (%s)\n", n, hangWall, cand)
+			r.Finish()
+			os.Exit(2)
+		case <-tick.C:
+			cpu := procCPU(cmd.Process.Pid)
+			if cpu >= hangCPU {
+				cmd.Process.Kill()
+				<-done
+				os.Rename(cand, path)
+				r.mu.Lock()
+				r.violations++
+				r.mu.Unlock()
+				fmt.Printf("VIOLATION property=%s replay=%s\n", r.ID, path)
+				fmt.Printf("  detail: non-termination: child burnt %v CPU on this one case without returning\n", cpu)
+				r.Finish()
+				os.Exit(1)
+			}
+			if time.Since(begin) > hangGive {
+				cmd.Process.Kill()
+				<-done
+				fmt.Printf("INCONCLUSIVE: child used only %v CPU in %v (starved?) on %s\n", cpu, hangGive, cand)
+				r.Finish()
+				os.Exit(2)
+			}
 		}
-		fmt.Printf("INCONCLUSIVE: a case is still running after %d x %v although it finishes when run alone (%s)\n", n, hangWall, cand)
-		r.Finish()
-		os.Exit(2)
-	case <-time.After(3 * hangWall):
-		cmd.Process.Kill()
-		<-done
 	}
-	cpu := cmd.ProcessState.UserTime() + cmd.ProcessState.SystemTime()
-	if cpu >= hangCPU {
-		os.Rename(cand, path)
-		r.mu.Lock()
-		r.violations++
-		r.mu.Unlock()
-		fmt.Printf("VIOLATION property=%s replay=%s\n", r.ID, path)
-		fmt.Printf("  detail: non-termination: child burnt %v CPU on this one case without returning\n", cpu)
-		r.Finish()
-		os.Exit(1)
+}
+
+// procCPU: user + system time a running process has used so far (all its threads), from /proc/<pid>/stat.
+func procCPU(pid int) time.Duration {
+	b, err := os.ReadFile(fmt.Sprintf("/proc/%d/stat", pid))
+	if err != nil {
+		return 0
 	}
-	fmt.Printf("INCONCLUSIVE: child used only %v CPU in %v (starved?) on %s\n", cpu, 3*hangWall, cand)
-	r.Finish()
-	os.Exit(2)
+	t := string(b)
+	i := strings.LastIndexByte(t, ')') // the command name may hold blanks and brackets
+	if i < 0 {
+		return 0
+	}
+	f := strings.Fields(t[i+1:])
+	if len(f) < 13 {
+		return 0
+	}
+	var ut, st int64
+	fmt.Sscan(f[11], &ut) // field 14: utime, field 15: stime, in clock ticks (100 per second on Linux)
+	fmt.Sscan(f[12], &st)
+	return time.Duration(ut+st) * (time.Second / 100)
 }
 
 // Decode is a helper for replayers.
